@@ -11,7 +11,7 @@ models and prints one canonical answer line per op (see harness/e4/*_test.go for
   <now> register|unregister <p> <hex param>…
   <now> ping|disconnect <p>
   <now> http <handler> <bad 0|1> <topic|_> <channel|_> <node|_>
-  <now> raw <method> <path> <bad 0|1> <topic|_> <channel|_> <node|_>
+  <now> raw <method> <path> <bad 0|1> <topic|_> <channel|_> <node|_> [q=<hex extra query>] [obs=<status>]
   <now> stream <p> <hex bytes> [<hex body>=<bcast>/<host>/<ver>/<tcp>/<http> …]
   <now> spoof <p> <victim conn> <extra keys|-> <bcast> <host> <ver> <tcp> <http> <hex of what follows the body> [k=<n>]
   <now> abort <p> identify|register|unregister|ping <args as above>   (send, do not read the answer, close)
@@ -236,16 +236,27 @@ def stepLine1 (s : DSt) (line : String) : DSt × String :=
           match x with
           | some x => withQ { s with reg := x.1 } now (httpOutStr x.2)
           | none => (s, "bad-op")
-      | ["raw", m, path, bad, t, c, n] =>
+      | "raw" :: m :: path :: bad :: t :: c :: n :: extra =>
+        -- optional tokens: `q=<hex extra query>` (pprof arguments, not interpreted) and `obs=<status>` = the status
+        -- the real run answered on a row whose answer is a SET (`httpOutcomes`): ACCEPTOR — printed back iff allowed
         match parseArgs bad t c n with
         | none => (s, "bad-op")
         | some a =>
           let x := httpStep s.conf s.reg m path a now
-          -- `/ping` answers the two bytes "OK" (`pingBody`), `/info` the document {"version": …} (`infoKeys`)
-          let body := if m = "GET" && path = "/ping" && x.2 = 200 then " body=" ++ hex pingBody
-                      else if m = "GET" && path = "/info" && x.2 = 200 then " body=" ++ ",".intercalate infoKeys
-                      else ""
-          withQ { s with reg := x.1 } now (s!"status={x.2}" ++ body)
+          let outs := httpOutcomes s.conf s.reg m path a now
+          let obs : Option Nat := (extra.find? (fun w => w.startsWith "obs=")).bind (fun w => (w.drop 4).toNat?)
+          let y : Option (Registry × Nat) :=
+            match obs with
+            | none => some x
+            | some st => outs.find? (fun o => o.2 == st)
+          match y with
+          | none => withQ s now (s!"status-not-allowed allowed=" ++ ",".intercalate (outs.map (fun o => toString o.2)))
+          | some x =>
+            -- `/ping` answers the two bytes "OK" (`pingBody`), `/info` the document {"version": …} (`infoKeys`)
+            let body := if m = "GET" && path = "/ping" && x.2 = 200 then " body=" ++ hex pingBody
+                        else if m = "GET" && path = "/info" && x.2 = 200 then " body=" ++ ",".intercalate infoKeys
+                        else ""
+            withQ { s with reg := x.1 } now (s!"status={x.2}" ++ body)
       | "stream" :: p :: bytes :: dec =>
         match p.toNat?, unhex bytes with
         | some p, some bs =>
